@@ -280,6 +280,8 @@ fn tracker_section(s: &Value) -> Value {
                 "visual_minimal_area" => o.visual_minimal_area(f(v)),
                 "visual_minimal_quality_use" => o.visual_minimal_quality_use(f(v)),
                 "visual_minimal_quality_collect" => o.visual_minimal_quality_collect(f(v)),
+                "visual_minimal_own_area_percentage_use" => o.visual_minimal_own_area_percentage_use(f(v)),
+                "visual_minimal_own_area_percentage_collect" => o.visual_minimal_own_area_percentage_collect(f(v)),
                 "positional_min_confidence" => o.positional_min_confidence(f(v)),
                 "kalman_position_weight" => o.kalman_position_weight(f(v)),
                 "kalman_velocity_weight" => o.kalman_velocity_weight(f(v)),
@@ -367,6 +369,43 @@ fn tracker_section(s: &Value) -> Value {
                 let nres = got.len();
                 got.sort_by_key(|x| x.0);
                 out.push(json!([nres, got.iter().map(|(sc, ts)| json!([sc, traces(ts)])).collect::<Vec<_>>()]));
+            }
+            "predict_pipelined" => {
+                let traces = |ts: &[SortTrack]| Value::Array(ts.iter().map(track_trace).collect());
+                let mut frames_out = vec![];
+                enum R {
+                    S(similari::trackers::batch::PredictionBatchResult),
+                }
+                let mut ress = vec![];
+                for dets in op["frames"].as_array().unwrap() {
+                    let dets = dets.as_array().unwrap();
+                    match &mut tr {
+                        T::BS(t) => {
+                            let (mut req, res) = PredictionBatchRequest::<(Universal2DBox, Option<i64>)>::new();
+                            for d in dets {
+                                req.add(scene, (mk_ubox(&d["box"]), d["custom"].as_i64()));
+                            }
+                            t.predict(req);
+                            ress.push(R::S(res));
+                        }
+                        T::BV(t) => {
+                            let feats: Vec<Option<Vec<f32>>> = dets.iter().map(|d| d["feature"].as_array().map(|a| a.iter().map(f).collect())).collect();
+                            let (mut req, res) = PredictionBatchRequest::<VisualSortObservation>::new();
+                            for (i, d) in dets.iter().enumerate() {
+                                req.add(scene, VisualSortObservation::new(feats[i].as_deref(), of(&d["quality"]), mk_ubox(&d["box"]), d["custom"].as_i64()));
+                            }
+                            t.predict(req);
+                            ress.push(R::S(res));
+                        }
+                        _ => panic!("predict_pipelined on a simple tracker"),
+                    }
+                }
+                for R::S(res) in ress {
+                    let mut got: Vec<(u64, Vec<SortTrack>)> = (0..res.batch_size()).map(|_| res.get()).collect();
+                    got.sort_by_key(|x| x.0);
+                    frames_out.push(Value::Array(got.iter().map(|(sc, ts)| json!([sc, traces(ts)])).collect()));
+                }
+                out.push(Value::Array(frames_out));
             }
             "skip" => {
                 let n = op["n"].as_u64().unwrap() as usize;
@@ -492,9 +531,51 @@ fn run_python(env: &Env, so_dir: &std::path::Path, count: u32, replay: Option<&s
         cmd.arg("--replay").arg(r);
     }
     let st = cmd.status().map_err(|e| format!("cannot run python3-vt: {}", e))?;
-    let text = std::fs::read_to_string(&out_file).map_err(|e| format!("python side produced no result (exit {:?}): {}", st.code(), e))?;
+    let cur_file = std::path::PathBuf::from(format!("{}.current", out_file.display()));
+    let text = match std::fs::read_to_string(&out_file) {
+        Ok(t) => t,
+        Err(e) => {
+            // the watchdog ended the process: which side was executing which script?
+            if let Ok(cur) = std::fs::read_to_string(&cur_file) {
+                let _ = std::fs::remove_file(&cur_file);
+                if let Ok(v) = serde_json::from_str::<Value>(&cur) {
+                    return Ok(json!({"hang": v["phase"], "script": v["script"]}));
+                }
+            }
+            return Err(format!("python side produced no result (exit {:?}): {}", st.code(), e));
+        }
+    };
     let _ = std::fs::remove_file(&out_file);
+    let _ = std::fs::remove_file(&cur_file);
     serde_json::from_str(&text).map_err(|e| e.to_string())
+}
+
+/// A script during which the Python side did not return although the Rust API did: confirmed by
+/// replaying it (and then each of its sections alone) in fresh interpreter processes.
+fn confirm_hang(env: &Env, so_dir: &std::path::Path, script: &Value) -> Option<Value> {
+    let hangs = |s: &Value| -> bool {
+        let f = env.verif_dir.join("target").join(format!("c18-hang-{}.json", std::process::id()));
+        if std::fs::write(&f, serde_json::to_string(&json!({"case": s})).unwrap()).is_err() {
+            return false;
+        }
+        let r = run_python(env, so_dir, 1, Some(&f));
+        let _ = std::fs::remove_file(&f);
+        matches!(r, Ok(v) if v["hang"] == "python")
+    };
+    if !(hangs(script) && hangs(script)) {
+        return None;
+    }
+    if let Some(secs) = script["sections"].as_array() {
+        if secs.len() > 1 {
+            for s in secs {
+                let single = json!({"sections": [s]});
+                if hangs(&single) {
+                    return Some(single);
+                }
+            }
+        }
+    }
+    Some(script.clone())
 }
 
 pub fn run(env: &Env, rep: &Report) {
@@ -516,6 +597,22 @@ pub fn run(env: &Env, rep: &Report) {
             return;
         }
     };
+    if !res["hang"].is_null() {
+        if res["hang"] == "python" {
+            match confirm_hang(env, &so_dir, &res["script"]) {
+                Some(script) => {
+                    let mut l = LocalStats::default();
+                    l.add_external(1, 1, Default::default(), vec![script.clone()]);
+                    rep.merge("scripts", l);
+                    rep.record_violation("scripts", Fail::new("binding-hang", format!("the Python call sequence did not return within {} s although the same calls through the Rust API returned (reproduced twice in fresh interpreter processes)", std::env::var("SV_C18_HANG_S").unwrap_or("60".into()))), script);
+                }
+                None => rep.mark_inconclusive("a script did not finish on the Python side once, but completed when replayed".to_string()),
+            }
+        } else {
+            rep.mark_inconclusive("the Rust driver did not answer within the watchdog time".to_string());
+        }
+        return;
+    }
     let evals = res["evaluations"].as_u64().unwrap_or(0);
     let mut l = LocalStats::default();
     l.add_external(evals, res["distinct_nontrivial"].as_u64().unwrap_or(0), res["labels"].as_object().cloned().unwrap_or_default(), res["samples"].as_array().cloned().unwrap_or_default());
@@ -534,6 +631,12 @@ pub fn run(env: &Env, rep: &Report) {
 pub fn replay_file(env: &Env, path: &std::path::Path) -> CaseResult {
     let so_dir = build_module(env).map_err(|e| Fail::new("harness", e))?;
     let res = run_python(env, &so_dir, 1, Some(path)).map_err(|e| Fail::new("harness", e))?;
+    if res["hang"] == "python" {
+        return Err(Fail::new("binding-hang", "the Python call sequence did not return although the same calls through the Rust API returned".to_string()));
+    }
+    if !res["hang"].is_null() {
+        return Err(Fail::new("hang@driver", "the Rust driver did not answer within the watchdog time".to_string()));
+    }
     match res.get("violation").filter(|v| !v.is_null()) {
         Some(v) => Err(Fail::new("binding-mismatch", v["message"].as_str().unwrap_or("?").to_string())),
         None => Ok(CaseOk::new(true)),
